@@ -3,6 +3,7 @@ import GasolVerif.Show
 import GasolVerif.Models.FormulaIO
 import GasolVerif.Models.Cost
 import GasolVerif.Models.Asm
+import GasolVerif.Models.Spec
 open GasolVerif
 
 def parseWords? (s : String) : Option (List Word) :=
@@ -74,6 +75,8 @@ def handle (line : String) : String :=
       | some S => s!"{S.base} {S.stk.length}"
       | none => "ext"
     | none => "error:parse"
+  | ["SPECCHK", block, src, tgt, instrs, deps, scheds] => Spec.handleSpecChk norm3 block src tgt instrs deps scheds
+  | ["REALIZES", src, tgt, instrs, deps, ids] => Spec.handleRealizes src tgt instrs deps ids
   | _ => "error:unknown-request"
 
 partial def loop (h : IO.FS.Stream) (out : IO.FS.Stream) : IO Unit := do
